@@ -680,11 +680,16 @@ def read_data(
         else:
             return data
     else:
+        if isinstance(reader_schema, dict):
+            # The reader defines the type inline here (e.g. in a union branch)
+            named_reader_schema = reader_schema
+        else:
+            named_reader_schema = named_schemas["reader"].get(reader_schema)
         return read_data(
             decoder,
             named_schemas["writer"][record_type],
             named_schemas,
-            named_schemas["reader"].get(reader_schema),
+            named_reader_schema,
             options,
         )
 
